@@ -8,6 +8,78 @@ From GVGen Require Import GenBodies GenInventory GenTables.
 Import ListNotations.
 Open Scope string_scope.
 
+Example O06_body_goose_TranslationConfig_TranslatePackages :
+  has_body func_bodies "goose.TranslationConfig.TranslatePackages"
+    "func(modDir string, pkgPattern ...string) (files []coq.File, errs []error, patternErr error)"
+    "{ pkgs, err := packages.Load(newPackageConfig(modDir), pkgPattern...) if err != nil { return nil, nil, err } if len(pkgs) == 0 { return nil, nil, errors.New(""patterns matched no packages"") } files = make([]coq.File, len(pkgs)) errs = make([]error, len(pkgs)) var wg sync.WaitGroup wg.Add(len(pkgs)) for i, pkg := range pkgs { go func(i int, pkg *packages.Package) { f, err := tr.translatePackage(pkg) files[i] = f errs[i] = err wg.Done() }(i, pkg) } wg.Wait() return }" = true.
+Proof. vm_compute. reflexivity. Qed.
+
+Example O06_body_goose_TranslationConfig_translatePackage :
+  has_body func_bodies "goose.TranslationConfig.translatePackage"
+    "func(pkg *packages.Package) (coq.File, error)"
+    "{ if len(pkg.Errors) > 0 { return coq.File{}, errors.Errorf( ""could not load package %v:\n%v"", pkg.PkgPath, pkgErrors(pkg.Errors)) } if ffis := ffisUsed(pkg); len(ffis) > 1 { return coq.File{}, errors.Errorf( ""could not translate package %v: multiple ffis used %v"", pkg.PkgPath, ffis) } ctx := NewPkgCtx(pkg, tr) files := sortedFiles(pkg.CompiledGoFiles, pkg.Syntax) coqFile := coq.File{ PkgPath: pkg.PkgPath, GoPackage: pkg.Name, } coqFile.ImportHeader, coqFile.Footer = ffiHeaderFooter(ctx.PkgConfig.Ffi) imports, decls, errs := ctx.Decls(files...) coqFile.Imports = imports coqFile.Decls = decls if len(errs) != 0 { return coqFile, errors.Wrap(MultipleErrors(errs), ""conversion failed"") } return coqFile, nil }" = true.
+Proof. vm_compute. reflexivity. Qed.
+
+Example O06_body_goose_sortedFiles :
+  has_body func_bodies "goose.sortedFiles"
+    "func(fileNames []string, fileAsts []*ast.File) []NamedFile"
+    "{ var flatFiles []NamedFile if len(fileNames) != len(fileAsts) { fmt.Printf(""names: %+v\n"", fileNames) fmt.Printf(""asts: %+v\n"", fileAsts) panic(""sortedFiles(): fileNames must match fileAsts"") } for i := range fileNames { flatFiles = append(flatFiles, NamedFile{Path: fileNames[i], Ast: fileAsts[i]}) } sort.Slice(flatFiles, func(i, j int) bool { return flatFiles[i].Path < flatFiles[j].Path }) return flatFiles }" = true.
+Proof. vm_compute. reflexivity. Qed.
+
+Example O06_body_goose_newPackageConfig :
+  has_body func_bodies "goose.newPackageConfig"
+    "func(modDir string) *packages.Config"
+    "{ mode := packages.NeedName | packages.NeedCompiledGoFiles mode |= packages.NeedImports mode |= packages.NeedTypes | packages.NeedSyntax | packages.NeedTypesInfo return &packages.Config{ Dir: modDir, Mode: mode, BuildFlags: []string{""-tags"", ""goose""}, Fset: token.NewFileSet(), } }" = true.
+Proof. vm_compute. reflexivity. Qed.
+
+Example O06_body_goose_NewPkgCtx :
+  has_body func_bodies "goose.NewPkgCtx"
+    "func(pkg *packages.Package, tr TranslationConfig) Ctx"
+    "{ config := PkgConfig{ TranslationConfig: tr, Ffi: getFfi(pkg), } return Ctx{ idents: newIdentCtx(), info: pkg.TypesInfo, Fset: pkg.Fset, pkgPath: pkg.PkgPath, errorReporter: newErrorReporter(pkg.Fset), PkgConfig: config, } }" = true.
+Proof. vm_compute. reflexivity. Qed.
+
+Example O06_body_goose_NewCtx :
+  has_body func_bodies "goose.NewCtx"
+    "func(pkgPath string, conf PkgConfig) Ctx"
+    "{ info := &types.Info{ Defs: make(map[*ast.Ident]types.Object), Uses: make(map[*ast.Ident]types.Object), Instances: make(map[*ast.Ident]types.Instance), Types: make(map[ast.Expr]types.TypeAndValue), Scopes: make(map[ast.Node]*types.Scope), } fset := token.NewFileSet() return Ctx{ idents: newIdentCtx(), info: info, Fset: fset, pkgPath: pkgPath, errorReporter: newErrorReporter(fset), PkgConfig: conf, } }" = true.
+Proof. vm_compute. reflexivity. Qed.
+
+Example O06_body_goose_getFfi :
+  has_body func_bodies "goose.getFfi"
+    "func(pkg *packages.Package) string"
+    "{ seenFfis := ffisUsed(pkg) if len(seenFfis) > 1 { panic(fmt.Sprintf(""multiple ffis used %v"", seenFfis)) } for ffi := range seenFfis { return ffi } return ""none"" }" = true.
+Proof. vm_compute. reflexivity. Qed.
+
+Example O06_body_goose_ffisUsed :
+  has_body func_bodies "goose.ffisUsed"
+    "func(pkg *packages.Package) map[string]struct{}"
+    "{ seenFfis := make(map[string]struct{}) packages.Visit([]*packages.Package{pkg}, func(pkg *packages.Package) bool { if _, ok := ffiMapping[pkg.PkgPath]; ok { return false } return true }, func(pkg *packages.Package) { if ffi, ok := ffiMapping[pkg.PkgPath]; ok { seenFfis[ffi] = struct{}{} } }, ) return seenFfis }" = true.
+Proof. vm_compute. reflexivity. Qed.
+
+Example O06_body_coq_ImportDecls_PrintImports :
+  has_body func_bodies "coq.ImportDecls.PrintImports"
+    "func() string"
+    "{ seen := make(map[string]bool) var ss []string for _, decl := range decls { coqdecl := decl.CoqDecl() if !seen[coqdecl] { ss = append(ss, coqdecl) seen[coqdecl] = true } } sort.Strings(ss) return strings.Join(ss, ""\n"") }" = true.
+Proof. vm_compute. reflexivity. Qed.
+
+Example O06_body_goose_Ctx_Decls :
+  has_body func_bodies "goose.Ctx.Decls"
+    "func(fs ...NamedFile) (imports coq.ImportDecls, decls []coq.Decl, errs []error)"
+    "{ declGroups := make(map[declId][]coq.Decl) declDeps := make(map[declId][]string) nameDecls := make(map[string]declId) generated := make(map[declId]bool) for fi, f := range fs { for di, d := range f.Ast.Decls { ctx.dep = &depTracker{} id := declId{fi, di} newDecls, err := ctx.declsOrError(d) if err != nil { errs = append(errs, err) } declGroups[id] = newDecls declDeps[id] = ctx.dep.deps for _, n := range ctx.dep.names { nameDecls[n] = id } } } var lastFile int var processDecl func(id declId, ident string) processDecl = func(id declId, ident string) { if generated[id] { return } generated[id] = true for _, dep := range declDeps[id] { depid, ok := nameDecls[dep] if ok { processDecl(depid, dep) } } if lastFile != id.fileIdx && ident != """" { f := fs[id.fileIdx] decls = append(decls, coq.NewComment(fmt.Sprintf(""%s from %s"", ident, f.Name()))) lastFile = id.fileIdx } newDecls, newImports := filterImports(declGroups[id]) decls = append(decls, newDecls...) imports = append(imports, newImports...) } for fi, f := range fs { if len(fs) > 1 { decls = append(decls, coq.NewComment(f.Name())) } if f.Ast.Doc != nil { decls = append(decls, coq.NewComment(f.Ast.Doc.Text())) } lastFile = fi for di := range f.Ast.Decls { processDecl(declId{fi, di}, """") } } return }" = true.
+Proof. vm_compute. reflexivity. Qed.
+
+Example O06_body_coq_File_Write :
+  has_body func_bodies "coq.File.Write"
+    "func(w io.Writer)"
+    "{ fmt.Fprintln(w, f.autogeneratedNotice().CoqDecl()) fmt.Fprintln(w, strings.Trim(importHeader, ""\n"")) fmt.Fprintln(w, f.Imports.PrintImports()) if len(f.Imports) > 0 { fmt.Fprintln(w) } fmt.Fprintln(w, f.ImportHeader) fmt.Fprintln(w) decls := make(map[string]bool) for i, d := range f.Decls { decl := d.CoqDecl() _, isComment := d.(CommentDecl) if isComment || !decls[decl] { fmt.Fprintln(w, decl) decls[decl] = true if i != len(f.Decls)-1 { fmt.Fprintln(w) } } } fmt.Fprint(w, f.Footer) }" = true.
+Proof. vm_compute. reflexivity. Qed.
+
+Example O06_body_goosecmd_translate :
+  has_body func_bodies "goosecmd.translate"
+    "func(pkgPatterns []string, outRootDir string, modDir string, ignoreErrors bool, tr goose.TranslationConfig)"
+    "{ red := color.New(color.FgRed).SprintFunc() fs, errs, patternError := tr.TranslatePackages(modDir, pkgPatterns...) if patternError != nil { fmt.Fprintln(os.Stderr, red(patternError.Error())) os.Exit(1) } someError := false for i, f := range fs { err := errs[i] if err != nil { fmt.Fprintln(os.Stderr, red(err.Error())) someError = true if !ignoreErrors || f.PkgPath == """" { continue } } outFile := path.Join(outRootDir, coq.ImportToPath(f.PkgPath, f.GoPackage)) outDir := path.Dir(outFile) err = os.MkdirAll(outDir, 0777) if err != nil { fmt.Fprintln(os.Stderr, err.Error()) fmt.Fprintln(os.Stderr, red(""could not create output directory"")) } err = writeFileIfChanged(outFile, coqFileContents(f), 0666) if err != nil { fmt.Fprintln(os.Stderr, err.Error()) fmt.Fprintln(os.Stderr, red(""could not write output"")) os.Exit(1) } } if someError { os.Exit(1) } }" = true.
+Proof. vm_compute. reflexivity. Qed.
+
 Example O06_inv_go_sites :
   list_eqb go_sites [
   "goose.TranslationConfig.TranslatePackages | func(i int, pkg *packages.Package) { f, err := tr.translateP"
@@ -94,76 +166,4 @@ Example O06_inv_pkg_vars :
   "internal/coq/coq.go | LoopContinue";
   "internal/coq/coq.go | LoopBreak"
 ] = true.
-Proof. vm_compute. reflexivity. Qed.
-
-Example O06_body_goose_TranslationConfig_TranslatePackages :
-  has_body func_bodies "goose.TranslationConfig.TranslatePackages"
-    "func(modDir string, pkgPattern ...string) (files []coq.File, errs []error, patternErr error)"
-    "{ pkgs, err := packages.Load(newPackageConfig(modDir), pkgPattern...) if err != nil { return nil, nil, err } if len(pkgs) == 0 { return nil, nil, errors.New(""patterns matched no packages"") } files = make([]coq.File, len(pkgs)) errs = make([]error, len(pkgs)) var wg sync.WaitGroup wg.Add(len(pkgs)) for i, pkg := range pkgs { go func(i int, pkg *packages.Package) { f, err := tr.translatePackage(pkg) files[i] = f errs[i] = err wg.Done() }(i, pkg) } wg.Wait() return }" = true.
-Proof. vm_compute. reflexivity. Qed.
-
-Example O06_body_goose_TranslationConfig_translatePackage :
-  has_body func_bodies "goose.TranslationConfig.translatePackage"
-    "func(pkg *packages.Package) (coq.File, error)"
-    "{ if len(pkg.Errors) > 0 { return coq.File{}, errors.Errorf( ""could not load package %v:\n%v"", pkg.PkgPath, pkgErrors(pkg.Errors)) } if ffis := ffisUsed(pkg); len(ffis) > 1 { return coq.File{}, errors.Errorf( ""could not translate package %v: multiple ffis used %v"", pkg.PkgPath, ffis) } ctx := NewPkgCtx(pkg, tr) files := sortedFiles(pkg.CompiledGoFiles, pkg.Syntax) coqFile := coq.File{ PkgPath: pkg.PkgPath, GoPackage: pkg.Name, } coqFile.ImportHeader, coqFile.Footer = ffiHeaderFooter(ctx.PkgConfig.Ffi) imports, decls, errs := ctx.Decls(files...) coqFile.Imports = imports coqFile.Decls = decls if len(errs) != 0 { return coqFile, errors.Wrap(MultipleErrors(errs), ""conversion failed"") } return coqFile, nil }" = true.
-Proof. vm_compute. reflexivity. Qed.
-
-Example O06_body_goose_sortedFiles :
-  has_body func_bodies "goose.sortedFiles"
-    "func(fileNames []string, fileAsts []*ast.File) []NamedFile"
-    "{ var flatFiles []NamedFile if len(fileNames) != len(fileAsts) { fmt.Printf(""names: %+v\n"", fileNames) fmt.Printf(""asts: %+v\n"", fileAsts) panic(""sortedFiles(): fileNames must match fileAsts"") } for i := range fileNames { flatFiles = append(flatFiles, NamedFile{Path: fileNames[i], Ast: fileAsts[i]}) } sort.Slice(flatFiles, func(i, j int) bool { return flatFiles[i].Path < flatFiles[j].Path }) return flatFiles }" = true.
-Proof. vm_compute. reflexivity. Qed.
-
-Example O06_body_goose_newPackageConfig :
-  has_body func_bodies "goose.newPackageConfig"
-    "func(modDir string) *packages.Config"
-    "{ mode := packages.NeedName | packages.NeedCompiledGoFiles mode |= packages.NeedImports mode |= packages.NeedTypes | packages.NeedSyntax | packages.NeedTypesInfo return &packages.Config{ Dir: modDir, Mode: mode, BuildFlags: []string{""-tags"", ""goose""}, Fset: token.NewFileSet(), } }" = true.
-Proof. vm_compute. reflexivity. Qed.
-
-Example O06_body_goose_NewPkgCtx :
-  has_body func_bodies "goose.NewPkgCtx"
-    "func(pkg *packages.Package, tr TranslationConfig) Ctx"
-    "{ config := PkgConfig{ TranslationConfig: tr, Ffi: getFfi(pkg), } return Ctx{ idents: newIdentCtx(), info: pkg.TypesInfo, Fset: pkg.Fset, pkgPath: pkg.PkgPath, errorReporter: newErrorReporter(pkg.Fset), PkgConfig: config, } }" = true.
-Proof. vm_compute. reflexivity. Qed.
-
-Example O06_body_goose_NewCtx :
-  has_body func_bodies "goose.NewCtx"
-    "func(pkgPath string, conf PkgConfig) Ctx"
-    "{ info := &types.Info{ Defs: make(map[*ast.Ident]types.Object), Uses: make(map[*ast.Ident]types.Object), Instances: make(map[*ast.Ident]types.Instance), Types: make(map[ast.Expr]types.TypeAndValue), Scopes: make(map[ast.Node]*types.Scope), } fset := token.NewFileSet() return Ctx{ idents: newIdentCtx(), info: info, Fset: fset, pkgPath: pkgPath, errorReporter: newErrorReporter(fset), PkgConfig: conf, } }" = true.
-Proof. vm_compute. reflexivity. Qed.
-
-Example O06_body_goose_getFfi :
-  has_body func_bodies "goose.getFfi"
-    "func(pkg *packages.Package) string"
-    "{ seenFfis := ffisUsed(pkg) if len(seenFfis) > 1 { panic(fmt.Sprintf(""multiple ffis used %v"", seenFfis)) } for ffi := range seenFfis { return ffi } return ""none"" }" = true.
-Proof. vm_compute. reflexivity. Qed.
-
-Example O06_body_goose_ffisUsed :
-  has_body func_bodies "goose.ffisUsed"
-    "func(pkg *packages.Package) map[string]struct{}"
-    "{ seenFfis := make(map[string]struct{}) packages.Visit([]*packages.Package{pkg}, func(pkg *packages.Package) bool { if _, ok := ffiMapping[pkg.PkgPath]; ok { return false } return true }, func(pkg *packages.Package) { if ffi, ok := ffiMapping[pkg.PkgPath]; ok { seenFfis[ffi] = struct{}{} } }, ) return seenFfis }" = true.
-Proof. vm_compute. reflexivity. Qed.
-
-Example O06_body_coq_ImportDecls_PrintImports :
-  has_body func_bodies "coq.ImportDecls.PrintImports"
-    "func() string"
-    "{ seen := make(map[string]bool) var ss []string for _, decl := range decls { coqdecl := decl.CoqDecl() if !seen[coqdecl] { ss = append(ss, coqdecl) seen[coqdecl] = true } } sort.Strings(ss) return strings.Join(ss, ""\n"") }" = true.
-Proof. vm_compute. reflexivity. Qed.
-
-Example O06_body_goose_Ctx_Decls :
-  has_body func_bodies "goose.Ctx.Decls"
-    "func(fs ...NamedFile) (imports coq.ImportDecls, decls []coq.Decl, errs []error)"
-    "{ declGroups := make(map[declId][]coq.Decl) declDeps := make(map[declId][]string) nameDecls := make(map[string]declId) generated := make(map[declId]bool) for fi, f := range fs { for di, d := range f.Ast.Decls { ctx.dep = &depTracker{} id := declId{fi, di} newDecls, err := ctx.declsOrError(d) if err != nil { errs = append(errs, err) } declGroups[id] = newDecls declDeps[id] = ctx.dep.deps for _, n := range ctx.dep.names { nameDecls[n] = id } } } var lastFile int var processDecl func(id declId, ident string) processDecl = func(id declId, ident string) { if generated[id] { return } generated[id] = true for _, dep := range declDeps[id] { depid, ok := nameDecls[dep] if ok { processDecl(depid, dep) } } if lastFile != id.fileIdx && ident != """" { f := fs[id.fileIdx] decls = append(decls, coq.NewComment(fmt.Sprintf(""%s from %s"", ident, f.Name()))) lastFile = id.fileIdx } newDecls, newImports := filterImports(declGroups[id]) decls = append(decls, newDecls...) imports = append(imports, newImports...) } for fi, f := range fs { if len(fs) > 1 { decls = append(decls, coq.NewComment(f.Name())) } if f.Ast.Doc != nil { decls = append(decls, coq.NewComment(f.Ast.Doc.Text())) } lastFile = fi for di := range f.Ast.Decls { processDecl(declId{fi, di}, """") } } return }" = true.
-Proof. vm_compute. reflexivity. Qed.
-
-Example O06_body_coq_File_Write :
-  has_body func_bodies "coq.File.Write"
-    "func(w io.Writer)"
-    "{ fmt.Fprintln(w, f.autogeneratedNotice().CoqDecl()) fmt.Fprintln(w, strings.Trim(importHeader, ""\n"")) fmt.Fprintln(w, f.Imports.PrintImports()) if len(f.Imports) > 0 { fmt.Fprintln(w) } fmt.Fprintln(w, f.ImportHeader) fmt.Fprintln(w) decls := make(map[string]bool) for i, d := range f.Decls { decl := d.CoqDecl() _, isComment := d.(CommentDecl) if isComment || !decls[decl] { fmt.Fprintln(w, decl) decls[decl] = true if i != len(f.Decls)-1 { fmt.Fprintln(w) } } } fmt.Fprint(w, f.Footer) }" = true.
-Proof. vm_compute. reflexivity. Qed.
-
-Example O06_body_goosecmd_translate :
-  has_body func_bodies "goosecmd.translate"
-    "func(pkgPatterns []string, outRootDir string, modDir string, ignoreErrors bool, tr goose.TranslationConfig)"
-    "{ red := color.New(color.FgRed).SprintFunc() fs, errs, patternError := tr.TranslatePackages(modDir, pkgPatterns...) if patternError != nil { fmt.Fprintln(os.Stderr, red(patternError.Error())) os.Exit(1) } someError := false for i, f := range fs { err := errs[i] if err != nil { fmt.Fprintln(os.Stderr, red(err.Error())) someError = true if !ignoreErrors || f.PkgPath == """" { continue } } outFile := path.Join(outRootDir, coq.ImportToPath(f.PkgPath, f.GoPackage)) outDir := path.Dir(outFile) err = os.MkdirAll(outDir, 0777) if err != nil { fmt.Fprintln(os.Stderr, err.Error()) fmt.Fprintln(os.Stderr, red(""could not create output directory"")) } err = writeFileIfChanged(outFile, coqFileContents(f), 0666) if err != nil { fmt.Fprintln(os.Stderr, err.Error()) fmt.Fprintln(os.Stderr, red(""could not write output"")) os.Exit(1) } } if someError { os.Exit(1) } }" = true.
 Proof. vm_compute. reflexivity. Qed.
